@@ -222,15 +222,45 @@ pub struct Chaos<F> {
     inner: Pin<Box<F>>,
     sh: Sh,
     stall: (u64, u64),
+    /// Some(polls left in the current regime): the stall rate is re-drawn per task and per stretch of
+    /// polls, so that one task can run far ahead of another (starvation-like schedules that a uniform
+    /// rate practically never produces)
+    regime: Option<u64>,
 }
 
 pub fn chaos<F: Future>(f: F, sh: &Sh, stall: (u64, u64)) -> Chaos<F> {
-    Chaos { inner: Box::pin(f), sh: sh.clone(), stall }
+    Chaos { inner: Box::pin(f), sh: sh.clone(), stall, regime: None }
+}
+
+/// per task a coin decides between the fixed rate and a changing regime
+pub fn chaos_auto<F: Future>(f: F, sh: &Sh, stall: (u64, u64)) -> Chaos<F> {
+    let var = sh.lock().unwrap().ch.chance("task.var_regime", 1, 2);
+    if var { chaos_var(f, sh) } else { chaos(f, sh, stall) }
+}
+
+/// like `chaos`, with a per-task stall rate from {0, 1/8, 4/8, 7/8} re-drawn every 1..64 polls
+pub fn chaos_var<F: Future>(f: F, sh: &Sh) -> Chaos<F> {
+    Chaos { inner: Box::pin(f), sh: sh.clone(), stall: (0, 8), regime: Some(0) }
 }
 
 impl<F: Future> Future for Chaos<F> {
     type Output = F::Output;
     fn poll(mut self: Pin<&mut Self>, cx: &mut Context<'_>) -> Poll<F::Output> {
+        if let Some(left) = self.regime {
+            if left == 0 {
+                let (rate, len) = {
+                    let mut sh = self.sh.lock().unwrap();
+                    (*sh.ch.pick("task.regime.rate", &[0u64, 1, 4, 7]), 1 + sh.ch.draw("task.regime.len", 64))
+                };
+                self.stall = (rate, 8);
+                self.regime = Some(len);
+                if rate == 7 {
+                    self.sh.lock().unwrap().st.inc("fault.task_starved_regime");
+                }
+            } else {
+                self.regime = Some(left - 1);
+            }
+        }
         {
             let mut sh = self.sh.lock().unwrap();
             if sh.ch.chance("task.stall", self.stall.0, self.stall.1) {
